@@ -266,6 +266,20 @@ def builtin(eng: Engine, e, st: State, name: str, args: List[V], kwargs):
         if name.endswith("all"):
             return [(st, VScalar(z3.And(*ts) if ts else z3.BoolVal(True), T.bool))]
         return [(st, VScalar(z3.Or(*ts) if ts else z3.BoolVal(False), T.bool))]
+    if name == "copy.copy" and len(args) == 1 and isinstance(args[0], VScalar) and args[0].ty.kind == "obj":
+        src = args[0]
+        new = eng.alloc(st, src.ty.name)
+        todo, seen = [src.ty.name], set()
+        while todo:
+            cn = todo.pop()
+            if cn in seen or cn not in eng.classes:
+                continue
+            seen.add(cn)
+            for fname in eng.classes[cn].fields:
+                eng.write_field(st, new, fname, eng.read_field(st, src, fname), e)
+            todo.extend(eng.classes[cn].bases)
+        eng.registry.note("copy.copy(obj): a new object with the same field values (shallow copy)")
+        return [(st, new)]
     if name == "id" and len(args) == 1 and isinstance(args[0], VScalar) and args[0].ty.kind == "obj":
         return [(st, VScalar(args[0].z, T.int))]
     if name == "iter" and len(args) == 1:
